@@ -456,6 +456,23 @@ func c14ShouldAccept(q string) bool {
 	return false
 }
 
+// c14WouldJoin: deleting the control characters of q without touching the other bytes gives a text with fewer
+// characters than q has non-control characters, i.e. bytes that are invalid in q would join into a character
+// (coverage tag only: the inputs on which "copy the invalid byte" and "replace the invalid byte" differ in kind).
+func c14WouldJoin(q string) bool {
+	var sb strings.Builder
+	n := 0
+	for i := 0; i < len(q); {
+		r, w := utf8.DecodeRuneInString(q[i:])
+		if !unicode.IsControl(r) {
+			sb.WriteString(q[i : i+w])
+			n++
+		}
+		i += w
+	}
+	return utf8.RuneCountInString(sb.String()) != n
+}
+
 func c14MonitorQuery(mon *Mon, opIdx int, q, out string, err error) {
 	det := func(extra string) map[string]interface{} {
 		return map[string]interface{}{"op": opIdx, "input": c14Short(q), "input_len": len(q), "output": c14Short(out), "output_len": len(out),
@@ -471,6 +488,9 @@ func c14MonitorQuery(mon *Mon, opIdx int, q, out string, err error) {
 	}
 	if len(q) >= 999 && len(q) <= 1001 {
 		mon.Tag("len-999..1001")
+	}
+	if c14WouldJoin(q) {
+		mon.Tag("split-join") // removing the control characters byte-wise would join invalid bytes into a new character
 	}
 	if err != nil {
 		mon.Tag("err-" + c14ErrKind(err))
